@@ -9,5 +9,6 @@ CONSTANTS
   Offs <- OffsQ
   Needles <- NeedlesQ
   Fns <- FnsAll
+  Spell <- NoSpell
 INVARIANT TitlepartsAsIsAgrees
 CHECK_DEADLOCK FALSE
